@@ -129,6 +129,19 @@ class TypeMap:
                                     g.cells[i] if i < len(g.cells) else None)
         return None
 
+    def check_ref_store(self, cpu, seg, idx):
+        """A store through a reference (array element, record field of an
+        element, by-reference parameter)."""
+        if seg is cpu.globals_segment:
+            cells, kind = self.globals, 'globals'
+        elif type(seg).__name__ == 'CallFrame':
+            cells, kind = self.cells_for_frame(seg), 'frame (by reference)'
+        else:
+            return None
+        if idx >= len(seg.cells):
+            return None
+        return self._check_cell(kind, cells, idx, seg.cells[idx])
+
     def sweep(self, cpu):
         bad = []
         g = cpu.globals_segment
